@@ -53,6 +53,11 @@ CHECKS = {
             "The finite product value-class x delivery ($V, ${V}, assigned, $(), backquotes, * match) x quoting x position x neighbouring-word tag is enumerated completely (6.8k executions); thorough adds 20k random operator mixes.",
             "unquoted results compared modulo blank runs",
             "DESIGN.md 3 C13"),
+    "C09": ("exploration",
+            "runtime monitoring: a probe observer after every operation records the expansion values (argv), the environment it received and its cwd; $? probes after cd; relative-redirection files located afterwards; oracle = reference model of shell/exported variables, cwd, previous dir",
+            "Random histories of <=30 assignment/prefix/export/unset/read/cd/redirection operations over a generated tree with symlinks, non-directories and missing entries; every intermediate state is observed, not only the final one.",
+            "model in lib/c09.py; symlinks resolved with realpath as cd canonicalises",
+            "DESIGN.md 3 C09"),
 }
 
 NOT_YET = "check not built yet (work in progress); runtime monitoring is applicable and planned, see DESIGN.md section 3"
